@@ -568,6 +568,8 @@ class Env:
         self.pos = 0
         self.pc = []
         self.inputs = {}
+        self.choice_log = []
+        self._conc_choice = 0
         self.sqrt_sq = {}
         self._keep = []
         self.domains = {}
@@ -750,18 +752,22 @@ class Env:
     def choose(self, n, label=None):
         """nondeterministic choice in range(n), explored exhaustively (scheduler decisions etc.)"""
         if self.mode != "sym":
-            key = "choose!%d" % next(self.fresh)
-            return int(self.values.get(key, 0))
+            seq = self.values.get("__prefix__") or []
+            k = self._conc_choice
+            self._conc_choice += 1
+            return int(seq[k]) % max(n, 1) if k < len(seq) else 0
         if n <= 1:
             return 0
         if self.pos < len(self.prefix):
             d = self.prefix[self.pos]
             self.pos += 1
+            self.choice_log.append(d)
             return d
         for alt in range(n - 1, 0, -1):
             self.worklist.append(self.prefix + [alt])
         self.prefix.append(0)
         self.pos += 1
+        self.choice_log.append(0)
         return 0
 
     def concretize_int(self, s):
@@ -903,6 +909,13 @@ class Env:
             c.held += 1
             c.trivial += 1
             return True
+        if z3.is_false(es) and not self.pc and not self.inputs:
+            # concrete failure on a path with no symbolic constraint (e.g. a pure scheduling path): no query needed
+            c.violated += 1
+            if len(c.models) < 3:
+                c.models.append({"values": {"__prefix__": list(self.choice_log)}, "prefix": list(self.prefix[: self.pos]),
+                                 "tags": list(self.path_tags)})
+            return False
         neg = self._rewrite(z3.Not(e))
         if z3.is_false(z3.simplify(neg)):
             # decided by the polynomial normal form (divisors proved non-zero by the solver)
@@ -969,6 +982,7 @@ class Env:
         c.violated += 1
         if len(c.models) < 3:
             vals = {n: model_value(m, v) for n, v in self.inputs.items()}
+            vals["__prefix__"] = list(self.choice_log)
             c.models.append({"values": vals, "prefix": list(self.prefix[: self.pos]), "tags": list(self.path_tags)})
         return False
 
